@@ -19,7 +19,15 @@ Names == {[use |-> "x", decl |-> "x", pre |-> ""], [use |-> "_x", decl |-> "_x",
           [use |-> "x_1", decl |-> "x_1", pre |-> ""], [use |-> "\\x_1", decl |-> "\\x_1", pre |-> ""],
           [use |-> "_x_b", decl |-> "_x_b", pre |-> ""],
           [use |-> "x_{\"a\"}", decl |-> "x_a", pre |-> ""], [use |-> "x_{\"a\"}", decl |-> "\\x_a, x_2", pre |-> "    let a = 1\n"],
-          [use |-> "x_{a + 1}", decl |-> "x_2", pre |-> "    let a = 1\n"], [use |-> "$x", decl |-> "$x", pre |-> ""]}
+          [use |-> "x_{a + 1}", decl |-> "x_2", pre |-> "    let a = 1\n"], [use |-> "$x", decl |-> "$x", pre |-> ""],
+          \* indexes that have no bare spelling: fractional, negative, beyond the integer range, a name with a
+          \* leading underscore, a base without letters
+          [use |-> "x_{1.5}", decl |-> "x_{1.5}", pre |-> ""], [use |-> "x_{0 - 1}", decl |-> "x_{0 - 1}", pre |-> ""],
+          [use |-> "x_{9223372036854775808}", decl |-> "x_{9223372036854775808}", pre |-> ""],
+          [use |-> "x_{_a}", decl |-> "x_{_a}", pre |-> "    let _a = 1\n"], [use |-> "_{a}", decl |-> "_{a}", pre |-> "    let a = 2\n"],
+          [use |-> "y_{a}_{b}", decl |-> "y_2_5", pre |-> "    let a = 2\n    let b = 5\n"],
+          \* escaped names inside or in front of braces
+          [use |-> "\\_{a}", decl |-> "\\_{a}", pre |-> "    let a = 3\n"], [use |-> "x_{\\a_b}", decl |-> "x_{\\a_b}", pre |-> "    let a = 1\n"]}
 \* [text |-> the literal, kind |-> "num" | "arr" | "other", len |-> elements when an array of numbers]
 C(t, k, n) == [text |-> t, kind |-> k, len |-> n]
 Consts == {C("2", "num", 0), C("2.0", "num", 0), C("1.5", "num", 0), C("-3", "num", 0), C("-0.5", "num", 0), C("0.25", "num", 0),
@@ -27,7 +35,14 @@ Consts == {C("2", "num", 0), C("2.0", "num", 0), C("1.5", "num", 0), C("-3", "nu
            C("true", "other", 0), C("false", "other", 0), C("\"s\"", "other", 0), C("\"two words\"", "other", 0),
            C("[3, 1, 2]", "arr", 3), C("[1.5, 0.25]", "arr", 2), C("[1.5, 2.0, 0.25]", "arr", 3), C("[2.0, 4.0]", "arr", 2),            C("[true, false]", "other", 0), C("[\"a\", \"b\"]", "other", 0), C("[1, \"a\", true]", "other", 0),
            C("[1, 2.5]", "arr", 2), C("[]", "other", 0), C("[[1, 2], [3, 4]]", "mat", 2), C("[[1.0, 2.5], [3.0, 4.0]]", "mat", 2), C("[[1, 2], [3]]", "other", 0),
-           C("[[1.5], []]", "other", 0)}
+           C("[[1.5], []]", "other", 0),
+           \* array elements that the derived Debug form writes differently from the literal: strings with an
+           \* escaped quote or a backslash, numbers that Debug writes with an exponent, a graph
+           C("[\"a\\\"b\", \"c\"]", "other", 0), C("[\"p\\\\q\", \"r\"]", "other", 0),
+           C("[0.000001, 2.5]", "arr", 2), C("[10000000000000000.5, 2.5]", "arr", 2), C("[9223372036854775808, 1]", "arr", 2),
+           C("[9223372036854775808, \"a\"]", "other", 0), C("[Graph { A -> [B], B }]", "other", 0), C("0.000001", "num", 0),
+           \* a range written as a function call, where the a..b spelling is not grammatical
+           C("range(0, 3, false)", "arr", 3), C("range(1, 3, true)", "arr", 3)}
 Uses(c) == CASE c.kind = "num" -> {"coef", "rhs", "none"}
               [] c.kind = "arr" -> {"access", "sum", "len", "none"}
               [] c.kind = "mat" -> {"access2", "rows", "none"}
